@@ -1,6 +1,8 @@
 import RjModel.Model.Parse
 import RjModel.Generated.Constants
 import RjModel.Model.Chunks
+import RjModel.Model.ParseSettings
+import RjModel.Generated.Defaults
 open Rj
 
 def chunkCfg? : Option ChunkCfg := do
@@ -16,6 +18,23 @@ def handle (line : String) : String :=
   | "l2" :: rest =>
     match P.run P.scenario rest with
     | some sc => (run ⟨Generated.filterWrapPre, Generated.filterWrapPost⟩ sc).render sc.answers.length
+    | none => "bad-op"
+  | "resolve" :: rest =>
+    match P.run (do let c ← P.cli; let d ← P.ydoc; pure (c, d)) rest with
+    | some ((cli, dry), doc) =>
+      renderResolve (resolveSpec ⟨Generated.fieldRules, Generated.deployDefault, Generated.filtersReplace,
+        Generated.deployFlagOverrides⟩ cli doc) dry
+    | none => "bad-op"
+  | "filt" :: rest =>
+    match P.run (do let fs ← P.list P.filterAst; let ps ← P.list P.str; pure (fs, ps)) rest with
+    | some (fs, ps) =>
+      match fs.mapM (fun (f : Bool × Re) => (wrapOf Generated.filterWrapPre Generated.filterWrapPost f.2).map (fun w => (f.1, w))) with
+      | some wfs => "impl=" ++ String.ofList (ps.map fun p => if applyFilters wfs p.toList.toArray then '1' else '0')
+      | none => "bad-wrap"
+    | none => "bad-op"
+  | ["rpd", s] =>
+    match unx s with
+    | some str => renderPathDesc (parsePathDesc str)
     | none => "bad-op"
   | ["chunks", len] =>
     match chunkCfg?, len.toNat? with
